@@ -1999,3 +1999,171 @@ def c13(tier):
                   'all-emitters WSDL: every attribute and every non-root element may be missing, every QName-valued attribute may dangle or name its own component; at most 1 (quick) / 2 (thorough) '
                   'departures at a time, enforced as a z3 cardinality constraint; plus a start file that is not registered. Import cycles are C11. Divergence = call depth > 60. Outside: text that is '
                   'not well-formed XML beyond "parse fails" (roxmltree), inputs not expressible as departures from these documents, wall-clock time.')
+
+
+# ================================================================================================ C14 (sites)
+
+import rustlex as RL
+from sym import g_and, g_or, TRUE as G_TRUE, lift as sym_lift
+
+
+def lex_rope_symbolic(m, rope, info):
+    """runs the lexer over the rope with a symbolic state. Yields findings: (key, what, z3 condition)."""
+    findings = []
+    state = RL.CODE
+    site_of = {x.name: x for x in info.sites}
+    for pi, piece in enumerate(rope):
+        if isinstance(piece, str) and (piece.startswith('pub mod error {') or '\npub mod error {' in piece[:40]):
+            break        # the verbatim helper module: constant text, not schema-dependent
+        joint = []       # (guard, entry state, text)
+        for gs, st in sym_lift(state, m.allowed):
+            for gp, tx in sym_lift(piece, m.allowed):
+                g = g_and(gs, gp)
+                if g is not None:
+                    joint.append((g, st, tx, gp))
+        results = []
+        for g, st, tx, gp in joint:
+            st2, toks = RL.lex(st, tx)
+            results.append((g, st, tx, st2, toks, gp))
+        # rule A: within one erased entry state, the erased exit state and the tokens must not depend on the alternative
+        groups = {}
+        for r in results:
+            groups.setdefault(RL.erase_state(r[1]), []).append(r)
+        for e, rs in groups.items():
+            ref = (RL.erase_state(rs[0][3]), rs[0][4])
+            for g, st, tx, st2, toks, gp in rs[1:]:
+                if (RL.erase_state(st2), toks) != ref:
+                    site = next((n for n in (g.cube or {}) if n in site_of), None) or next((n for n in site_of if n in str(g.z)), '?')
+                    where = {'str': 'string-literal', 'lc': 'comment', 'bc': 'block-comment', 'code': 'code', 'rstr': 'raw-string', 'slash': 'code'}[e[0]]
+                    findings.append(('c14/%s/in-%s/token-structure-depends-on-text' % (site, where),
+                                     'text from %s changes the token structure of the output: %r lexes to %s, the reference alternative to %s' % (site, tx[:60], (RL.erase_state(st2), toks)[1] or (RL.erase_state(st2),), ref[1] or (ref[0],)),
+                                     g.z))
+        # rule C: a piece that lies entirely inside a string literal must decode to the original text
+        if isinstance(piece, SymVal):
+            for g, st, tx, st2, toks, gp in results:
+                if st == ('str', False) and st2 == ('str', False) and not toks and gp.cube and len(gp.cube) == 1:
+                    (name, idxs), = gp.cube.items()
+                    if name in info.literal_sites and len(idxs) == 1:
+                        orig = site_of[name].options[next(iter(idxs))]
+                        if name in ('site_location', 'site_soap_action'):
+                            orig = native.url_parse(orig)
+                        dec = RL.unescape(tx)
+                        if dec != orig:
+                            findings.append(('c14/%s/literal-value-differs' % name, 'the literal holding %r evaluates to %r' % (orig, dec), g.z))
+        # new state
+        outs = {}
+        order = []
+        for g, st, tx, st2, toks, gp in results:
+            if st2 not in outs:
+                outs[st2] = []
+                order.append(st2)
+            outs[st2].append(g)
+        state = order[0] if len(order) == 1 else SymVal([(g_or(outs[k]), k) for k in order])
+    return findings
+
+
+def concrete_token_stream(text):
+    k = text.find('\npub mod error {')
+    if k >= 0:
+        text = text[:k]
+    st, toks = RL.lex(RL.CODE, text)
+    return toks, st
+
+
+def c14(tier):
+    def body(s):
+        ctx = s.ctx
+        import e1props
+        s.parts['kani_keyword_table'] = e1props.c14_kw_part(s.rep, tier)
+        s.functions.update(n for n in ctx.bodies if re.search(r'write_xml|write_(complex|simple|type_alias|soap|async|check)|rename_keywords|as_field_name|xml_name_to_rust_name|make_abbreviated', n) and '::tests::' not in n)
+        for sc, info in F.inject_all(tier):
+            s.scenarios += 1
+            res = sc.explore(ctx)
+            s.count(res)
+            if len(res) > 1:
+                s.nontrivial += 1
+            stats = dict(scenario=sc.name, paths=len(res), ok=0, err=0, panic=0, sites={x.name: x.options for x in sc.selectors}, violations=[])
+            # benign configurations: every site at its first (harmless) value; a site may declare further harmless values
+            # (an absent facet): an invalid value may legitimately make zeep drop the item
+            configs = [{}]
+            for site, idxs in getattr(info, 'also_benign', {}).items():
+                if any(x.name == site for x in sc.selectors):
+                    configs += [{site: i} for i in idxs]
+            benign_streams = []
+            btxt = None
+            for cfg in configs:
+                bs = z3.Solver()
+                bs.add(sc.domain)
+                bs.add(*[x.var == cfg.get(x.name, 0) for x in sc.selectors])
+                bs.check()
+                brc, btxt_, _ = H.native_generate(ctx, sc.concrete_files(bs.model()), sc.start)
+                if btxt_:
+                    benign_streams.append(concrete_token_stream(btxt_)[0])
+                    btxt = btxt or btxt_
+            btoks = benign_streams[0] if benign_streams else None
+            reported = set()
+            for m, out in res:
+                if out[0] != 'ok':
+                    stats['panic'] += 1
+                    continue
+                if out[1][0] != 'ok':
+                    stats['err'] += 1
+                    continue
+                stats['ok'] += 1
+                fnd = lex_rope_symbolic(m, out[1][1].rope, info)
+                if btoks is not None:
+                    # cross-path half of the differential: with every site that is still symbolic on this path set to its benign
+                    # value, the token structure must be the benign one (rule A covers the other values of those sites)
+                    free = [x for x in sc.selectors if len(m.allowed.get(x.name, set(range(len(x.options))))) != 1]
+                    pm = sc.solve(m, z3.And(*[x.var == 0 for x in free])) if free else sc.solve(m)
+                    if pm is not None:
+                        from xmltree import concretize as _conc
+                        ptxt = ''.join(_conc(p_, pm, None) if isinstance(p_, SymVal) else p_ for p_ in out[1][1].rope)
+                        ptoks, pend = concrete_token_stream(ptxt)
+                        pp = sc.params(pm)
+                        sites = [x.name for x in sc.selectors if pp[x.name] != x.options[0]]
+                        if (ptoks not in benign_streams or pend != RL.CODE) and len(sites) == 1:
+                            k = 0
+                            while k < min(len(ptoks), len(btoks)) and ptoks[k] == btoks[k]:
+                                k += 1
+                            cond = z3.And(*[x.var == x.options.index(pp[x.name]) for x in sc.selectors])
+                            fnd = fnd + [('c14/%s/token-structure-differs-from-benign' % sites[0],
+                                          'with %s the output lexes differently from the output for benign text: first difference at token %d: %s vs %s' % (
+                                              {x: pp[x] for x in sites}, k, ptoks[k:k + 6], btoks[k:k + 6]), cond)]
+                for key, what, cond in fnd:
+                    if key in reported:
+                        continue
+                    model = sc.solve(m, cond)
+                    if model is None:
+                        continue
+                    reported.add(key)
+                    stats['violations'].append(key)
+                    params = sc.params(model)
+                    rc, txt, log_, files = sc.native(ctx, model)
+                    s.replays += 1
+                    rdir = save_replay('C14', re.sub(r'\W+', '_', key)[:90], dict(list(files.items()) + [
+                        ('finding.txt', '%s\n%s\nsite values: %s\n' % (key, what, params)), ('native_output.rs', txt or ''), ('benign_output.rs', btxt or '')]))
+                    if rc != 0 or txt is None:
+                        s.rep.inconc('ENCODING-MISMATCH %s: native zeep fails (rc=%s) on %s' % (key, rc, params))
+                        continue
+                    toks, endst = concrete_token_stream(txt)
+                    site = key.split('/')[1].split('+')[0]
+                    if key.endswith('literal-value-differs'):
+                        orig = params[site]
+                        if site in ('site_location', 'site_soap_action'):
+                            orig = native.url_parse(orig)
+                        # the literal exists in the native output with the same raw text; decode it there
+                        lits = re.findall(r'"((?:[^"\\]|\\.)*)"', txt)
+                        reproduced = orig not in [RL.unescape(l) for l in lits]
+                    else:
+                        reproduced = (toks not in benign_streams) or endst != RL.CODE
+                    if reproduced:
+                        s.rep.violation(key, what + ' [%s=%r]' % (site, params.get(site)), rdir)
+                    else:
+                        s.rep.inconc('ENCODING-MISMATCH %s: native output for %s lexes like the benign output' % (key, {site: params.get(site)}))
+            s.samples.append(stats)
+    return run_e2('C14', tier, body, bounds='(E1) every identifier-shaped string of 1..10 bytes through rename_keywords. (E2) 14 injection sites (type / member / attribute / simple type / element / '
+                  'operation / service / header part names, enumeration and facet values, documentation, namespace URI, address, soapAction), each symbolic over 4-8 adversarial strings (quotes, '
+                  'backslashes, braces, newline, CR, comment terminator, code payload, keywords, non-ASCII letters); a Rust lexer is run over the emitted rope with a symbolic state and z3 decides '
+                  'whether the erased token structure or a literal value depends on the text. Outside: strings not in the domains (finite domain, stated), rustc itself.',
+                  extra_assumptions=['the Rust lexer in smi/rustlex.py (strings, raw strings, comments, identifiers, keywords) is trusted; the verbatim helper module is constant text and not lexed'])
